@@ -54,6 +54,15 @@ def run_case(case):
 	elif kind == 'sym':
 		act = gm.jaccarddist(b, a)
 		ok = bits(float(act)) == bits(exp)
+		if ok:
+			# the same pair through the bulk entry points (reference kept in its own dtype, in an array-backed and a list container)
+			from gambit.sigs import SignatureArray
+			for name, fn in (('jaccarddist_array/SignatureArray', lambda: gm.jaccarddist_array(b, SignatureArray([a], dtype=a.dtype))[0]),
+			                 ('jaccarddist_array/list', lambda: gm.jaccarddist_array(b, [a])[0]),
+			                 ('jaccarddist_matrix', lambda: gm.jaccarddist_matrix([b], SignatureArray([a, a], dtype=a.dtype))[0, 1])):
+				v = fn()
+				if bits(float(v)) != bits(exp):
+					return {'ok': False, 'expected': repr(exp), 'actual': f'{name}: {float(v)!r}'}
 	else:
 		return {'error': 'unknown kind'}
 	return {'ok': bool(ok), 'expected': repr(exp), 'actual': repr(float(act))}
